@@ -53,6 +53,10 @@ def classify_crash(rc, out_tail, err_tail):
         if fm:
             fn = fm.group(1)[:60]
         return "crash_asan_%s" % kind, "AddressSanitizer: %s in %s" % (kind, fn)
+    m = re.search(r"([^\s:]+):(\d+):\d+: runtime error: ([^\n]+)", text)
+    if m:
+        return "crash_ubsan", "%s:%s: runtime error: %s" % (os.path.basename(m.group(1)), m.group(2),
+                                                            m.group(3)[:160])
     m = re.search(r"runtime error: ([^\n]+)", text)
     if m:
         return "crash_ubsan", m.group(0)[:200]
@@ -306,4 +310,6 @@ def sut_of(lines):
     for l in lines:
         if l.startswith("cfg sut="):
             return l[len("cfg sut="):].strip()
+        if l.startswith("cfg comp="):
+            return l[len("cfg comp="):].strip()
     return ""
